@@ -55,7 +55,10 @@ PLAIN = ['', 'true', 'True', 'false', '1', '-1', '1.5', '1e3', 'null', 'Null', '
          '2001-01-01T00:00:00Z', '12:30:45', '@at', '`tick', '!tag', '&anchor', '*alias', '%percent', '|', '>', '?',
          ':', '-', '[x]', 'a,b', '=', 'key = "v"', '[table]', "'''", '"""', 'cr\rhere', 'crlf\r\nline', '\x00nul',
          '\x1funit', '\x7fdel', 'nel\x85x', 'ls\u2028x', 'bom\ufeffx', 'long ' * 30, 'x' * 200, 'word',
-         'two words', '<<', '0', '00', '1.0', '-0', 'Infinity', 'NaN', '\\n', '\\u0041', '/', 'a/b']
+         'two words', '<<', '0', '00', '1.0', '-0', 'Infinity', 'NaN', '\\n', '\\u0041', '/', 'a/b',
+         # long text whose only break opportunities are runs of several spaces (line folding of the writers)
+         'x' + ' ' * 100 + 'y', 'lead ' + 'w' * 70 + '    ' + 'tail' * 10, ('ab' * 20 + '   ') * 5 + 'end',
+         'word ' * 14 + '     five spaces then more ' + 'z' * 30]
 BRACE = ['{{braces}}', '{{', '}}', 'a{{b}}c', '{{k1}}', '{{}}', 'j{{"a": 1}}']
 EXPR = ['x{k1}', '{k1}', '{k2}', '{k3}', '{k4}', '{k5}', '{k6}', 'n{k2}n', '{k1}{k1}', '{ku}', 'é{ku}', '{kf}',
         '{kb}', 'x{k3}', '{kn}']
@@ -637,6 +640,8 @@ def cause_of(what, a):
         sp = sorted({name for ch, name in SPECIAL.items() if ch in a and name not in ('TAB', 'LF')})
         if sp:
             return 'str-with-' + '+'.join(sp)
+        if len(a) > 80 and '  ' in a and '\n' not in a:
+            return 'long-str-with-space-run'
     return what
 
 
